@@ -22,6 +22,7 @@ PROP_MODULES = {
     "C12": ["c12"],
     "C11": ["c11"],
     "C15": ["c15"],
+    "C08": ["c08"],
 }
 
 
